@@ -220,6 +220,15 @@ def _walk_local(node):
         stack.extend(ast.iter_child_nodes(n))
 
 
+def _walk_local_defs(node):
+    """every node of a statement, nested function/class DEFINITIONS included as nodes but not entered"""
+    yield node
+    if isinstance(node, FUNC + (ast.Lambda, ast.ClassDef)):
+        return
+    for c in ast.iter_child_nodes(node):
+        yield from _walk_local_defs(c)
+
+
 def _has_return_in_loop_or_with(stmts, inside=False):
     for st in stmts:
         if isinstance(st, FUNC + (ast.ClassDef,)):
@@ -507,6 +516,22 @@ class _Inliner:
                         if f"{self.modname}:{qual}" not in self.inv and not c.decorator_list:
                             out.setdefault(("closure", parent, c.name), (c, False))
         visit(self.tree.body, "", None, None)
+        # a name that is defined more than once in its scope (conditional definitions), or that is also bound by an assignment /
+        # import / loop there, does not denote ONE function: calls of it are left alone
+        for key in list(out):
+            kind, owner, name = key
+            node = out[key][0]
+            if kind == "closure":
+                scope_nodes = [x for st_ in owner.body for x in _walk_local_defs(st_)]
+            elif kind == "method":
+                scope_nodes = [x for c_ in ast.walk(self.tree) if isinstance(c_, ast.ClassDef) and c_.name == owner for x in c_.body]
+            else:
+                scope_nodes = list(self.tree.body) + [x for st_ in self.tree.body if isinstance(st_, (ast.If, ast.Try)) for x in _walk_local_defs(st_)]
+            n_defs = sum(1 for x in scope_nodes if isinstance(x, FUNC + (ast.ClassDef,)) and x.name == name)
+            rebound = any(isinstance(x, ast.Name) and x.id == name and isinstance(x.ctx, (ast.Store, ast.Del)) for x in scope_nodes) or \
+                any(isinstance(x, ast.alias) and (x.asname or x.name) == name for x in scope_nodes)
+            if n_defs != 1 or rebound:
+                del out[key]
         return out
 
     def resolve(self, call, cls, fn_stack, helpers):
@@ -1633,6 +1658,8 @@ def _devirtualise(modname, tree, inv):
         c = classes.get(cname)
         if c is None or cname in derived:
             return None
+        if sum(1 for x in ast.walk(c) if (isinstance(x, FUNC) and x.name == m) or (isinstance(x, ast.Name) and x.id == m and isinstance(x.ctx, ast.Store))) != 1:
+            return None               # defined twice / conditionally / also assigned: not one method
         for x in c.body:
             if isinstance(x, ast.FunctionDef) and x.name == m and not x.decorator_list and f"{modname}:{cname}.{m}" not in inv:
                 return x
